@@ -27,278 +27,284 @@ def run(eng, R):
     R.rule("H-exp", "LaTeX exponent rewrite: the part of the pattern after 'e' can consume every exponent that %g / %e produce for a double (language rule on the regex literal)", 2)
 
     # ------------------------------------------------------------------ F-fresh
-    sites = fresh.print_sites(p)
-    for f, c, src, stored in sites:
-        if not stored:
-            R.note("print site %s:%d passes an explicit value with with_errors=False: no stored number is shown" % (f.qualname, c.lineno))
-            continue
-        # inside a formatter class the stored numbers are printed on behalf of the caller: obligation lies on callers passing with_par_values
-        if f.cls is not None and f.cls.name.endswith("Formatter"):
-            continue
-        ok, why = fresh.check_site(eng, f, c)
-        R.ob("F-fresh", "%s:get_formatted over %s" % (f.qualname, _txt(src)), ok, (f.file, c.lineno), "%s prints stored parameter numbers: %s" % (f.qualname, why))
-    n_fp = 0
-    for f in p.all_functions():
-        if f.cls is not None and f.cls.name.endswith("Formatter"):
-            continue
-        for c in walk_no_nested(f.node):
-            if isinstance(c, ast.Call) and isinstance(c.func, ast.Attribute) and c.func.attr in ("get_formatted", "get_formatted_model_function"):
-                recv = _txt(c.func.value)
-                if "formatter" not in recv and c.func.attr == "get_formatted":
-                    continue
-                if c.func.attr == "get_formatted" and not recv.endswith("model_function.formatter") and not recv.endswith("_model_function.formatter"):
-                    continue
-                n_fp += 1
-                wpv = fresh._kw(c, "with_par_values")
-                star = any(k.arg is None for k in c.keywords)
-                if star:
-                    # pass-through wrapper: obligations are at its callers (which are enumerated as get_formatted_model_function sites)
-                    continue
-                ok = wpv is None or (isinstance(wpv, ast.Constant) and wpv.value is False)
-                if not ok:
-                    ok, why = fresh.check_site(eng, f, c)
-                R.ob("F-fresh", "%s:function formatter@%s" % (f.qualname, recv), ok, (f.file, c.lineno),
-                     "%s prints the model function with stored parameter values without refreshing the formatters first" % f.qualname)
-    if n_fp < 3:
-        raise AnalysisError("function-formatter print sites not found (%d)" % n_fp)
+    with R.guard("Ffresh"):
+        sites = fresh.print_sites(p)
+        for f, c, src, stored in sites:
+            if not stored:
+                R.note("print site %s:%d passes an explicit value with with_errors=False: no stored number is shown" % (f.qualname, c.lineno))
+                continue
+            # inside a formatter class the stored numbers are printed on behalf of the caller: obligation lies on callers passing with_par_values
+            if f.cls is not None and f.cls.name.endswith("Formatter"):
+                continue
+            ok, why = fresh.check_site(eng, f, c)
+            R.ob("F-fresh", "%s:get_formatted over %s" % (f.qualname, _txt(src)), ok, (f.file, c.lineno), "%s prints stored parameter numbers: %s" % (f.qualname, why))
+        n_fp = 0
+        for f in p.all_functions():
+            if f.cls is not None and f.cls.name.endswith("Formatter"):
+                continue
+            for c in walk_no_nested(f.node):
+                if isinstance(c, ast.Call) and isinstance(c.func, ast.Attribute) and c.func.attr in ("get_formatted", "get_formatted_model_function"):
+                    recv = _txt(c.func.value)
+                    if "formatter" not in recv and c.func.attr == "get_formatted":
+                        continue
+                    if c.func.attr == "get_formatted" and not recv.endswith("model_function.formatter") and not recv.endswith("_model_function.formatter"):
+                        continue
+                    n_fp += 1
+                    wpv = fresh._kw(c, "with_par_values")
+                    star = any(k.arg is None for k in c.keywords)
+                    if star:
+                        # pass-through wrapper: obligations are at its callers (which are enumerated as get_formatted_model_function sites)
+                        continue
+                    ok = wpv is None or (isinstance(wpv, ast.Constant) and wpv.value is False)
+                    if not ok:
+                        ok, why = fresh.check_site(eng, f, c)
+                    R.ob("F-fresh", "%s:function formatter@%s" % (f.qualname, recv), ok, (f.file, c.lineno),
+                         "%s prints the model function with stored parameter values without refreshing the formatters first" % f.qualname)
+        if n_fp < 3:
+            raise AnalysisError("function-formatter print sites not found (%d)" % n_fp)
 
     # ------------------------------------------------------------------ S-sync
-    f = get_func(p, "FitBase", "_update_parameter_formatters")
-    src = _txt(f.node)
-    # placeholders: `_f` a formatter, `_v` / `_e` / `_x` what it receives, `_a` the asymmetric errors
-    ok = src.like("for _f, _v, _e in zip(self._get_model_function_parameter_formatters(), self.parameter_values, self.parameter_errors): _f.value = _v _f.error = _e")
-    R.ob("S-sync", "FitBase._update_parameter_formatters:values", ok, (f.file, f.lineno), "values and errors must be copied position by position from parameter_values / parameter_errors")
-    s2 = common.Src(str(src))
-    ok = s2.all_like("_a = self.asymmetric_parameter_errors", "for _f, _x in zip(self._get_model_function_parameter_formatters(), _a): _f.asymmetric_error = _x")
-    R.ob("S-sync", "FitBase._update_parameter_formatters:asymmetric", ok, (f.file, f.lineno), "asymmetric errors must be copied position by position from asymmetric_parameter_errors")
-    ok = s2.like("if _a is None: _a = np.stack([-self.parameter_errors, self.parameter_errors], axis=1)")
-    R.ob("S-sync", "FitBase._update_parameter_formatters:fallback", ok, (f.file, f.lineno), "without asymmetric errors the formatters must get (-err, +err)")
-    f = get_func(p, "MultiFit", "_update_parameter_formatters")
-    src = _txt(f.node)
-    ok = common.like_any(src, "for _m in self._fits: _m._update_parameter_formatters(update_asymmetric_errors)", "for _m in self._fits: _m._update_parameter_formatters(update_asymmetric_errors=update_asymmetric_errors)")
-    R.ob("S-sync", "MultiFit._update_parameter_formatters", ok, (f.file, f.lineno), "MultiFit must refresh every member with the same flag")
-    f = get_func(p, "FitBase", "do_fit")
-    g = eng.cfg(f)
-    rets = [n for n in g.nodes if n.kind == "stmt" and isinstance(n.stmt, ast.Return)]
-    ok = bool(rets) and all(g.dominated_by(r.id, lambda n: any(isinstance(c, ast.Call) and isinstance(c.func, ast.Attribute) and c.func.attr == fresh.REFRESH and is_self(c.func.value)
-                                                               for part in n.ast_parts() for c in walk_no_nested(part)))[0] for r in rets)
-    R.ob("S-sync", "FitBase.do_fit:refresh", ok, (f.file, f.lineno), "do_fit must refresh the formatters before it returns the results")
+    with R.guard("Ssync"):
+        f = get_func(p, "FitBase", "_update_parameter_formatters")
+        src = _txt(f.node)
+        # placeholders: `_f` a formatter, `_v` / `_e` / `_x` what it receives, `_a` the asymmetric errors
+        ok = src.like("for _f, _v, _e in zip(self._get_model_function_parameter_formatters(), self.parameter_values, self.parameter_errors): _f.value = _v _f.error = _e")
+        R.ob("S-sync", "FitBase._update_parameter_formatters:values", ok, (f.file, f.lineno), "values and errors must be copied position by position from parameter_values / parameter_errors")
+        s2 = common.Src(str(src))
+        ok = s2.all_like("_a = self.asymmetric_parameter_errors", "for _f, _x in zip(self._get_model_function_parameter_formatters(), _a): _f.asymmetric_error = _x")
+        R.ob("S-sync", "FitBase._update_parameter_formatters:asymmetric", ok, (f.file, f.lineno), "asymmetric errors must be copied position by position from asymmetric_parameter_errors")
+        ok = s2.like("if _a is None: _a = np.stack([-self.parameter_errors, self.parameter_errors], axis=1)")
+        R.ob("S-sync", "FitBase._update_parameter_formatters:fallback", ok, (f.file, f.lineno), "without asymmetric errors the formatters must get (-err, +err)")
+        f = get_func(p, "MultiFit", "_update_parameter_formatters")
+        src = _txt(f.node)
+        ok = common.like_any(src, "for _m in self._fits: _m._update_parameter_formatters(update_asymmetric_errors)", "for _m in self._fits: _m._update_parameter_formatters(update_asymmetric_errors=update_asymmetric_errors)")
+        R.ob("S-sync", "MultiFit._update_parameter_formatters", ok, (f.file, f.lineno), "MultiFit must refresh every member with the same flag")
+        f = get_func(p, "FitBase", "do_fit")
+        g = eng.cfg(f)
+        rets = [n for n in g.nodes if n.kind == "stmt" and isinstance(n.stmt, ast.Return)]
+        ok = bool(rets) and all(g.dominated_by(r.id, lambda n: any(isinstance(c, ast.Call) and isinstance(c.func, ast.Attribute) and c.func.attr == fresh.REFRESH and is_self(c.func.value)
+                                                                   for part in n.ast_parts() for c in walk_no_nested(part)))[0] for r in rets)
+        R.ob("S-sync", "FitBase.do_fit:refresh", ok, (f.file, f.lineno), "do_fit must refresh the formatters before it returns the results")
 
     # ------------------------------------------------------------------ S-fixed
-    for fn, val in (("fix_parameter", "True"), ("release_parameter", "False")):
-        f = get_func(p, "FitBase", fn)
-        src = _txt(f.node)
-        ok = common.like_any(src, "self._get_model_function_parameter_formatters()[self.parameter_names.index(name)].fixed = %s" % val,
-                             ["_i = self.parameter_names.index(name)", "self._get_model_function_parameter_formatters()[_i].fixed = %s" % val])
-        g = eng.cfg(f)
-        if ok:
-            ok, _ = g.all_paths_pass(g.entry.id, lambda n: n.kind == "stmt" and isinstance(n.stmt, ast.Assign) and _txt(n.stmt.targets[0]).endswith(".fixed"))
-        R.ob("S-fixed", "FitBase.%s" % fn, ok, (f.file, f.lineno), "%s must set the formatter's fixed flag to %s at the index of that parameter name, on every normal path" % (fn, val))
-    f = get_func(p, "ParameterFormatter", "get_formatted")
-    wv = [n for n in f.node.body if isinstance(n, ast.If) and _txt(n.test) == "with_value"]
-    ok = False
-    if len(wv) == 1:
-        chain = [s for s in wv[0].body if isinstance(s, ast.If) and _txt(s.test) == "self.fixed"]
-        if len(chain) == 1:
-            body = _txt(ast.Module(body=chain[0].body, type_ignores=[]))
-            # the fixed branch is the first alternative: everything that rounds is in its orelse
-            later = _txt(ast.Module(body=chain[0].orelse, type_ignores=[]))
-            ok = body.count("(fixed)") == 2 and "ScalarFormatter" in later and "ScalarFormatter" not in body
-    R.ob("S-fixed", "ParameterFormatter.get_formatted:fixed first", ok, (f.file, f.lineno), "a fixed parameter must be printed as '<value> (fixed)' (plain and LaTeX) before any error formatting is attempted")
-    pr = p.find_class("ParameterFormatter").find_prop("fixed")
-    ok = pr is not None and pr.fset is not None and "self._fixed = fixed" in _txt(pr.fset.node) and "return self._fixed" in _txt(pr.fget.node)
-    R.ob("S-fixed", "ParameterFormatter.fixed", ok, (f.file, f.lineno), "the fixed property must store and return the flag")
+    with R.guard("Sfixed"):
+        for fn, val in (("fix_parameter", "True"), ("release_parameter", "False")):
+            f = get_func(p, "FitBase", fn)
+            src = _txt(f.node)
+            ok = common.like_any(src, "self._get_model_function_parameter_formatters()[self.parameter_names.index(name)].fixed = %s" % val,
+                                 ["_i = self.parameter_names.index(name)", "self._get_model_function_parameter_formatters()[_i].fixed = %s" % val])
+            g = eng.cfg(f)
+            if ok:
+                ok, _ = g.all_paths_pass(g.entry.id, lambda n: n.kind == "stmt" and isinstance(n.stmt, ast.Assign) and _txt(n.stmt.targets[0]).endswith(".fixed"))
+            R.ob("S-fixed", "FitBase.%s" % fn, ok, (f.file, f.lineno), "%s must set the formatter's fixed flag to %s at the index of that parameter name, on every normal path" % (fn, val))
+        f = get_func(p, "ParameterFormatter", "get_formatted")
+        wv = [n for n in f.node.body if isinstance(n, ast.If) and _txt(n.test) == "with_value"]
+        ok = False
+        if len(wv) == 1:
+            chain = [s for s in wv[0].body if isinstance(s, ast.If) and _txt(s.test) == "self.fixed"]
+            if len(chain) == 1:
+                body = _txt(ast.Module(body=chain[0].body, type_ignores=[]))
+                # the fixed branch is the first alternative: everything that rounds is in its orelse
+                later = _txt(ast.Module(body=chain[0].orelse, type_ignores=[]))
+                ok = body.count("(fixed)") == 2 and "ScalarFormatter" in later and "ScalarFormatter" not in body
+        R.ob("S-fixed", "ParameterFormatter.get_formatted:fixed first", ok, (f.file, f.lineno), "a fixed parameter must be printed as '<value> (fixed)' (plain and LaTeX) before any error formatting is attempted")
+        pr = p.find_class("ParameterFormatter").find_prop("fixed")
+        ok = pr is not None and pr.fset is not None and "self._fixed = fixed" in _txt(pr.fset.node) and "return self._fixed" in _txt(pr.fget.node)
+        R.ob("S-fixed", "ParameterFormatter.fixed", ok, (f.file, f.lineno), "the fixed property must store and return the flag")
 
     # ------------------------------------------------------------------ T-live
-    f = get_func(p, "FitBase", "get_result_dict")
-    stores = {}
-    for n in ast.walk(f.node):
-        if isinstance(n, ast.Assign) and isinstance(n.targets[0], ast.Subscript) and _txt(n.targets[0].value) == "_result_dict":
-            k = common.const_str(n.targets[0].slice)
-            stores.setdefault(k, []).append(n)
-    locs = {}
-    for n in ast.walk(f.node):
-        if isinstance(n, ast.Assign) and isinstance(n.targets[0], ast.Name):
-            locs.setdefault(n.targets[0].id, []).append(_txt(n.value))
-    want = {"did_fit": "self.did_fit", "cost": "float(self.cost_function_value)", "ndf": "self.ndf", "goodness_of_fit": "self.goodness_of_fit", "chi2_probability": "self.chi2_probability",
-            "parameter_values": "self.parameter_name_value_dict", "parameter_cov_mat": "self.parameter_cov_mat", "parameter_cor_mat": "self.parameter_cor_mat"}
-    for k, w in want.items():
-        vals = []
-        for n in stores.get(k, []):
-            v = _txt(n.value)
-            if isinstance(n.value, ast.Name) and n.value.id in locs:
-                v = locs[n.value.id][-1]
-            if v != "None":
-                vals.append(v)
-        R.ob("T-live", "FitBase.get_result_dict:%s" % k, vals == [w], (f.file, f.lineno), "result key '%s' must be %s (found %s)" % (k, w, vals))
-    src = _txt(f.node)
-    ok = common.like_any(src, ["_g = self.goodness_of_fit", "_n = self.ndf", "_result_dict['gof/ndf'] = _g if _g is None else _g / _n"],
-                         ["_g = self.goodness_of_fit", "_n = self.ndf", "_result_dict['gof/ndf'] = _g / _n if _g is not None else _g"])
-    R.ob("T-live", "FitBase.get_result_dict:gof/ndf", ok, (f.file, f.lineno), "gof/ndf must be the quotient of the same two numbers (the goodness of fit and the ndf written to the dictionary)")
-    R.ob("T-live", "FitBase.get_result_dict:parameter_errors", "for _pn, _pe in zip(self.parameter_names, self.parameter_errors): _parameter_errors[_pn] = _pe" in src
-         and "_result_dict['parameter_errors'] = _parameter_errors" in src, (f.file, f.lineno), "parameter_errors must map each name to the uncertainty at the same position")
-    R.ob("T-live", "FitBase.get_result_dict:asymmetric", "for _pn, _ape in zip(self.parameter_names, _asymm_errs)" in src, (f.file, f.lineno), "asymmetric errors must be keyed by the name at the same position")
-    f = get_func(p, "FitBase", "_report_fit_results")
-    src = _txt(f.node)
-    fmt = [{k.arg: _txt(k.value) for k in c.keywords if k.arg} for c in ast.walk(f.node) if isinstance(c, ast.Call) and isinstance(c.func, ast.Attribute) and c.func.attr == "get_formatted"]
-    gof_locals = {n.targets[0].id for n in ast.walk(f.node) if isinstance(n, ast.Assign) and isinstance(n.targets[0], ast.Name) and _txt(n.value) == "self.goodness_of_fit"}
-    prob_locals = {n.targets[0].id for n in ast.walk(f.node) if isinstance(n, ast.Assign) and isinstance(n.targets[0], ast.Name) and _txt(n.value) == "self.chi2_probability"}
-    checks = {
-        "cost": any(k.get("value") == "self.cost_function_value" and k.get("with_name") == "False" and k.get("format_as_latex") == "False" for k in fmt),
-        "gof": bool(gof_locals) or any(k.get("value") == "self.goodness_of_fit" for k in fmt),
-        "gof print": any((k.get("value") in gof_locals or k.get("value") == "self.goodness_of_fit") and k.get("n_degrees_of_freedom") == "self.ndf" and k.get("with_value_per_ndf") == "True"
-                         and k.get("with_name") == "False" for k in fmt),
-        "probability": bool(prob_locals) or "self.chi2_probability" in src,
-        "probability print": any(src.like("'%%schi2 probability = %%#.3g\\n\\n' %% (indent * (indentation_level + 2), %s)" % v) for v in sorted(prob_locals) + ["self.chi2_probability"]),
-        "correlations": common.like_any(src, "for _n, _r in zip(par_display_names, self.parameter_cor_mat.T): _d[_n] = np.atleast_1d(np.squeeze(np.asarray(_r)))"),
-        "names": common.like_any(src, "par_display_names = [_q.name for _q in self._get_model_function_parameter_formatters()]"),
-    }
-    for k, ok in checks.items():
-        R.ob("T-live", "FitBase._report_fit_results:%s" % k, ok, (f.file, f.lineno), "the report must print %s from the live fit" % k)
-    f = get_func(p, "FitYamlWriter", "_get_preface_comment")
-    src = _txt(f.node)
-    gc = [c for c in ast.walk(f.node) if isinstance(c, ast.Call) and isinstance(c.func, ast.Name) and c.func.id == "get_compact_representation"]
-    slot = {"names": ("parameter_names", 0), "values": ("parameter_values", 1), "errors": ("parameter_errors", 2), "correlations": ("parameter_cor_mat", 3)}
-    for k, (pn, pos) in slot.items():
-        ok = len(gc) == 1 and _txt(common.kwarg(gc[0], pn, pos)) == "self._kafe_object.%s" % pn
-        R.ob("T-live", "FitYamlWriter._get_preface_comment:%s" % k, ok, (f.file, f.lineno), "the preface comment must take %s from the live fit (self._kafe_object.%s)" % (k, pn))
-    need = {"gof": ["_g = self._kafe_object.goodness_of_fit"], "cost": ["_c = self._kafe_object.cost_function_value"], "ndf": ["_n = self._kafe_object.ndf"],
-            "gof/ndf": ["_g = self._kafe_object.goodness_of_fit", "_n = self._kafe_object.ndf", "round(_g / _n, _round_gof_per_ndf_sig)"],
-            "gof line": ["_g = self._kafe_object.goodness_of_fit", "'# %s: %s\\n' % (_gof_name, _g)"], "ndf line": ["_n = self._kafe_object.ndf", "'# ndf: %s\\n' % _n"]}
-    for k, w in need.items():
-        R.ob("T-live", "FitYamlWriter._get_preface_comment:%s" % k, common.like_any(src, w), (f.file, f.lineno), "the preface comment must take %s from the live fit: `%s`" % (k, w[-1]))
-    f = get_func(p, None, "kafe2.tools:get_compact_representation")
-    src = _txt(f.node)
-    ok = "zip(parameter_names, parameter_values, parameter_errors, _cor_mat_row_strs)" in src and "_row.append(round(_par_val, _sig_fig_val))" in src and "_row.append(round(_par_err, _sig_fig_err))" in src \
-        and "_sig_fig_val = max(_sig_fig_err," in src
-    R.ob("T-live", "get_compact_representation:rows", ok, (f.file, f.lineno), "each row must show name, value and uncertainty of the same position; the value is rounded to at least the decimals of the uncertainty")
+    with R.guard("Tlive"):
+        f = get_func(p, "FitBase", "get_result_dict")
+        stores = {}
+        for n in ast.walk(f.node):
+            if isinstance(n, ast.Assign) and isinstance(n.targets[0], ast.Subscript) and _txt(n.targets[0].value) == "_result_dict":
+                k = common.const_str(n.targets[0].slice)
+                stores.setdefault(k, []).append(n)
+        locs = {}
+        for n in ast.walk(f.node):
+            if isinstance(n, ast.Assign) and isinstance(n.targets[0], ast.Name):
+                locs.setdefault(n.targets[0].id, []).append(_txt(n.value))
+        want = {"did_fit": "self.did_fit", "cost": "float(self.cost_function_value)", "ndf": "self.ndf", "goodness_of_fit": "self.goodness_of_fit", "chi2_probability": "self.chi2_probability",
+                "parameter_values": "self.parameter_name_value_dict", "parameter_cov_mat": "self.parameter_cov_mat", "parameter_cor_mat": "self.parameter_cor_mat"}
+        for k, w in want.items():
+            vals = []
+            for n in stores.get(k, []):
+                v = _txt(n.value)
+                if isinstance(n.value, ast.Name) and n.value.id in locs:
+                    v = locs[n.value.id][-1]
+                if v != "None":
+                    vals.append(v)
+            R.ob("T-live", "FitBase.get_result_dict:%s" % k, vals == [w], (f.file, f.lineno), "result key '%s' must be %s (found %s)" % (k, w, vals))
+        src = _txt(f.node)
+        ok = common.like_any(src, ["_g = self.goodness_of_fit", "_n = self.ndf", "_result_dict['gof/ndf'] = _g if _g is None else _g / _n"],
+                             ["_g = self.goodness_of_fit", "_n = self.ndf", "_result_dict['gof/ndf'] = _g / _n if _g is not None else _g"])
+        R.ob("T-live", "FitBase.get_result_dict:gof/ndf", ok, (f.file, f.lineno), "gof/ndf must be the quotient of the same two numbers (the goodness of fit and the ndf written to the dictionary)")
+        R.ob("T-live", "FitBase.get_result_dict:parameter_errors", "for _pn, _pe in zip(self.parameter_names, self.parameter_errors): _parameter_errors[_pn] = _pe" in src
+             and "_result_dict['parameter_errors'] = _parameter_errors" in src, (f.file, f.lineno), "parameter_errors must map each name to the uncertainty at the same position")
+        R.ob("T-live", "FitBase.get_result_dict:asymmetric", "for _pn, _ape in zip(self.parameter_names, _asymm_errs)" in src, (f.file, f.lineno), "asymmetric errors must be keyed by the name at the same position")
+        f = get_func(p, "FitBase", "_report_fit_results")
+        src = _txt(f.node)
+        fmt = [{k.arg: _txt(k.value) for k in c.keywords if k.arg} for c in ast.walk(f.node) if isinstance(c, ast.Call) and isinstance(c.func, ast.Attribute) and c.func.attr == "get_formatted"]
+        gof_locals = {n.targets[0].id for n in ast.walk(f.node) if isinstance(n, ast.Assign) and isinstance(n.targets[0], ast.Name) and _txt(n.value) == "self.goodness_of_fit"}
+        prob_locals = {n.targets[0].id for n in ast.walk(f.node) if isinstance(n, ast.Assign) and isinstance(n.targets[0], ast.Name) and _txt(n.value) == "self.chi2_probability"}
+        checks = {
+            "cost": any(k.get("value") == "self.cost_function_value" and k.get("with_name") == "False" and k.get("format_as_latex") == "False" for k in fmt),
+            "gof": bool(gof_locals) or any(k.get("value") == "self.goodness_of_fit" for k in fmt),
+            "gof print": any((k.get("value") in gof_locals or k.get("value") == "self.goodness_of_fit") and k.get("n_degrees_of_freedom") == "self.ndf" and k.get("with_value_per_ndf") == "True"
+                             and k.get("with_name") == "False" for k in fmt),
+            "probability": bool(prob_locals) or "self.chi2_probability" in src,
+            "probability print": any(src.like("'%%schi2 probability = %%#.3g\\n\\n' %% (indent * (indentation_level + 2), %s)" % v) for v in sorted(prob_locals) + ["self.chi2_probability"]),
+            "correlations": common.like_any(src, "for _n, _r in zip(par_display_names, self.parameter_cor_mat.T): _d[_n] = np.atleast_1d(np.squeeze(np.asarray(_r)))"),
+            "names": common.like_any(src, "par_display_names = [_q.name for _q in self._get_model_function_parameter_formatters()]"),
+        }
+        for k, ok in checks.items():
+            R.ob("T-live", "FitBase._report_fit_results:%s" % k, ok, (f.file, f.lineno), "the report must print %s from the live fit" % k)
+        f = get_func(p, "FitYamlWriter", "_get_preface_comment")
+        src = _txt(f.node)
+        gc = [c for c in ast.walk(f.node) if isinstance(c, ast.Call) and isinstance(c.func, ast.Name) and c.func.id == "get_compact_representation"]
+        slot = {"names": ("parameter_names", 0), "values": ("parameter_values", 1), "errors": ("parameter_errors", 2), "correlations": ("parameter_cor_mat", 3)}
+        for k, (pn, pos) in slot.items():
+            ok = len(gc) == 1 and _txt(common.kwarg(gc[0], pn, pos)) == "self._kafe_object.%s" % pn
+            R.ob("T-live", "FitYamlWriter._get_preface_comment:%s" % k, ok, (f.file, f.lineno), "the preface comment must take %s from the live fit (self._kafe_object.%s)" % (k, pn))
+        need = {"gof": ["_g = self._kafe_object.goodness_of_fit"], "cost": ["_c = self._kafe_object.cost_function_value"], "ndf": ["_n = self._kafe_object.ndf"],
+                "gof/ndf": ["_g = self._kafe_object.goodness_of_fit", "_n = self._kafe_object.ndf", "round(_g / _n, _round_gof_per_ndf_sig)"],
+                "gof line": ["_g = self._kafe_object.goodness_of_fit", "'# %s: %s\\n' % (_gof_name, _g)"], "ndf line": ["_n = self._kafe_object.ndf", "'# ndf: %s\\n' % _n"]}
+        for k, w in need.items():
+            R.ob("T-live", "FitYamlWriter._get_preface_comment:%s" % k, common.like_any(src, w), (f.file, f.lineno), "the preface comment must take %s from the live fit: `%s`" % (k, w[-1]))
+        f = get_func(p, None, "kafe2.tools:get_compact_representation")
+        src = _txt(f.node)
+        ok = "zip(parameter_names, parameter_values, parameter_errors, _cor_mat_row_strs)" in src and "_row.append(round(_par_val, _sig_fig_val))" in src and "_row.append(round(_par_err, _sig_fig_err))" in src \
+            and "_sig_fig_val = max(_sig_fig_err," in src
+        R.ob("T-live", "get_compact_representation:rows", ok, (f.file, f.lineno), "each row must show name, value and uncertainty of the same position; the value is rounded to at least the decimals of the uncertainty")
 
-    # every log10 in the compact table is taken of a quantity that was tested against zero / nan on the way there
-    f = get_func(p, None, "kafe2.tools:get_compact_representation")
-    n_log = 0
-    # the function itself and the private module-level helpers it calls (a digit computation may live in one of them, guarded there on its own parameter)
-    scopes = [f.node]
-    for c_ in ast.walk(f.node):
-        if isinstance(c_, ast.Call) and isinstance(c_.func, ast.Name) and c_.func.id.startswith("_") and c_.func.id in f.module.functions:
-            scopes.append(f.module.functions[c_.func.id].node)
-    for scope, c in [(sc, c) for sc in scopes for c in ast.walk(sc)]:
-        if isinstance(c, ast.Call) and _txt(c.func) in ("np.log10", "math.log10", "log10") and c.args:
-            names = [x.id for x in ast.walk(c.args[0]) if isinstance(x, ast.Name) and x.id not in ("np", "math")]
-            if len(names) != 1:
-                continue
-            n_log += 1
-            v = names[0]
-            conds = common.guard_conditions(scope, c, flat=True)
-            guarded = False
-            for t, pol in conds:
-                for cmp_ in ast.walk(t):
-                    if isinstance(cmp_, ast.Compare) and isinstance(cmp_.left, ast.Name) and cmp_.left.id == v and isinstance(cmp_.comparators[0], ast.Constant) and cmp_.comparators[0].value in (0, 0.0):
-                        guarded = True
-            R.ob("T-live", "get_compact_representation:log10(%s)" % v, guarded, (f.file, c.lineno),
-                 "the number of digits is computed from log10(|%s|) without excluding %s == 0: writing a fit whose %s is exactly zero raises OverflowError" % (v, v, v))
-    if n_log < 3:
-        raise AnalysisError("get_compact_representation: digit computations not found")
+        # every log10 in the compact table is taken of a quantity that was tested against zero / nan on the way there
+        f = get_func(p, None, "kafe2.tools:get_compact_representation")
+        n_log = 0
+        # the function itself and the private module-level helpers it calls (a digit computation may live in one of them, guarded there on its own parameter)
+        scopes = [f.node]
+        for c_ in ast.walk(f.node):
+            if isinstance(c_, ast.Call) and isinstance(c_.func, ast.Name) and c_.func.id.startswith("_") and c_.func.id in f.module.functions:
+                scopes.append(f.module.functions[c_.func.id].node)
+        for scope, c in [(sc, c) for sc in scopes for c in ast.walk(sc)]:
+            if isinstance(c, ast.Call) and _txt(c.func) in ("np.log10", "math.log10", "log10") and c.args:
+                names = [x.id for x in ast.walk(c.args[0]) if isinstance(x, ast.Name) and x.id not in ("np", "math")]
+                if len(names) != 1:
+                    continue
+                n_log += 1
+                v = names[0]
+                conds = common.guard_conditions(scope, c, flat=True)
+                guarded = False
+                for t, pol in conds:
+                    for cmp_ in ast.walk(t):
+                        if isinstance(cmp_, ast.Compare) and isinstance(cmp_.left, ast.Name) and cmp_.left.id == v and isinstance(cmp_.comparators[0], ast.Constant) and cmp_.comparators[0].value in (0, 0.0):
+                            guarded = True
+                R.ob("T-live", "get_compact_representation:log10(%s)" % v, guarded, (f.file, c.lineno),
+                     "the number of digits is computed from log10(|%s|) without excluding %s == 0: writing a fit whose %s is exactly zero raises OverflowError" % (v, v, v))
+        if n_log < 3:
+            raise AnalysisError("get_compact_representation: digit computations not found")
 
-    # a reloaded fit shows its numbers under the right names: positional mappings keep their order in the file
-    from .c09 import check_order_carrying
+        # a reloaded fit shows its numbers under the right names: positional mappings keep their order in the file
+        from .c09 import check_order_carrying
 
-    check_order_carrying(eng, R, "T-live")
+        check_order_carrying(eng, R, "T-live")
 
     # ------------------------------------------------------------------ H-dec
-    SF = "kafe2.fit._base.format:ScalarFormatter"
-    f = get_func(p, SF, "__init__")
-    from .formulas import extract
-    from ..termform import path_exprs, subst
+    with R.guard("Hdec"):
+        SF = "kafe2.fit._base.format:ScalarFormatter"
+        f = get_func(p, SF, "__init__")
+        from .formulas import extract
+        from ..termform import path_exprs, subst
 
-    def closed(fn, pick):
-        return [Normalizer({}).norm(subst(e, env)).canon() for conds, e, env in path_exprs(fn.node, pick)]
+        def closed(fn, pick):
+            return [Normalizer({}).norm(subst(e, env)).canon() for conds, e, env in path_exprs(fn.node, pick)]
 
-    def calls_in_stmt(st, name):
-        own = [st] if not hasattr(st, "body") else [x for x in (getattr(st, "test", None), getattr(st, "iter", None)) if x is not None]
-        return [c for o in own for c in ast.walk(o) if isinstance(c, ast.Call) and (c.func.attr if isinstance(c.func, ast.Attribute) else getattr(c.func, "id", None)) == name]
+        def calls_in_stmt(st, name):
+            own = [st] if not hasattr(st, "body") else [x for x in (getattr(st, "test", None), getattr(st, "iter", None)) if x is not None]
+            return [c for o in own for c in ast.walk(o) if isinstance(c, ast.Call) and (c.func.attr if isinstance(c.func, ast.Attribute) else getattr(c.func, "id", None)) == name]
 
-    want = norm_spec("int(-floor(log10(self._sigma))) + self._n_significant_digits - 1").canon()
-    forms = closed(f, lambda st: [c.args[1] for c in calls_in_stmt(st, "around") if len(c.args) > 1])
-    R.ob("H-dec", "%s.__init__:first estimate" % SF, forms == [want], (f.file, f.lineno), "decimals = n - 1 - floor(log10 sigma) (found %s)" % forms)
-    forms = [x.canon() for ct, x, _ in extract(f, "store", "self._sig", node=f.node)]
-    want2 = norm_spec("int(-floor(log10(around(self._sigma, int(-floor(log10(self._sigma))) + self._n_significant_digits - 1)))) + self._n_significant_digits - 1").canon()
-    R.ob("H-dec", "%s.__init__:after rounding" % SF, forms == [want2], (f.file, f.lineno), "decimals must be recomputed from sigma rounded to the first estimate (0.99 -> 1.0 shifts the decimal place); found %s" % forms)
-    f = get_func(p, SF, "__call__")
-    src = _txt(f.node)
-    # the number of significant digits handed to the %#.<digits>g template, per path (value rounds to zero / not)
-    digs = sorted(closed(f, lambda st: [k.value for c in calls_in_stmt(st, "format") for k in c.keywords if k.arg == "significance"]))
-    R_X = "abs(around(x, self._sig))"
-    exp = sorted([norm_spec("max(int(self._sig + int(floor(-1)) + 1), 0)").canon(), norm_spec("max(int(self._sig + int(floor(log10(abs(%s)))) + 1), 0)" % R_X).canon()])
-    R.ob("H-dec", "%s.__call__:value digits" % SF, digs == exp, (f.file, f.lineno),
-         "significant digits of the value = decimals + floor(log10|x|) + 1, clipped at 0, independent of the digits shown for the uncertainty (found %s)" % digs)
-    R_X = "abs(np.around(x, self._sig))"
-    ok = common.like_any(src, ["_l = -1", "if %s: _l = np.log10(np.abs(%s))" % (R_X, R_X), "return '%#.{significance}g'.format(significance=_d) % x"],
-                         ["_r = %s" % R_X, "_l = -1", "if _r: _l = np.log10(np.abs(_r))", "return '%#.{significance}g'.format(significance=_d) % x"])
-    R.ob("H-dec", "%s.__call__:magnitude" % SF, ok, (f.file, f.lineno), "the magnitude must be taken from the value rounded to the decimals (9.996 -> 10.0), with a fallback for zero, and the value printed with %#.<digits>g")
-    f = get_func(p, "ParameterFormatter", "get_formatted")
-    src = _txt(f.node)
-    ok = src.all_like("_vf = ScalarFormatter(_me, n_significant_digits)", "_v = _vf(value)", "_e = '%#.{n}g'.format(n=n_significant_digits) % self.error") \
-        and common.like_any(src, "_me = min(abs(self.error_up), abs(self.error_down)) if asymmetric_error else self.error", ["_me = min(abs(self.error_up), abs(self.error_down))", "_me = self.error"])
-    R.ob("H-dec", "ParameterFormatter.get_formatted:rounding", ok, (f.file, f.lineno),
-         "the value must be rounded by a ScalarFormatter built from the (smaller) uncertainty and n; the uncertainty printed with exactly n significant digits")
-    ok = "_err_u = val_formatter(abs(self.error_up)) _err_d = '%#.{n}g'.format(n=n_significant_digits) % abs(self.error_down)" in src \
-        and "_err_d = val_formatter(abs(self.error_down)) _err_u = '%#.{n}g'.format(n=n_significant_digits) % abs(self.error_up)" in src and "if abs(self.error_down) <= abs(self.error_up):" in src
-    R.ob("H-dec", "ParameterFormatter.get_formatted:asymmetric", ok, (f.file, f.lineno), "the smaller asymmetric uncertainty gets n significant digits, the larger one the same decimals")
-    f = get_func(p, "CostFunctionFormatter", "get_formatted")
-    src = _txt(f.node)
-    ok = "_value_string = '%.4g' % value" in src and "_value_string = '%s / %d' % (_value_string, n_degrees_of_freedom)" in src \
-        and "_value_string = '%s = %.4g' % (_value_string, float(value) / n_degrees_of_freedom)" in src
-    R.ob("H-dec", "CostFunctionFormatter.get_formatted", ok, (f.file, f.lineno), "the cost is printed with 4 significant digits, the ndf as integer, the quotient as value / ndf")
+        want = norm_spec("int(-floor(log10(self._sigma))) + self._n_significant_digits - 1").canon()
+        forms = closed(f, lambda st: [c.args[1] for c in calls_in_stmt(st, "around") if len(c.args) > 1])
+        R.ob("H-dec", "%s.__init__:first estimate" % SF, forms == [want], (f.file, f.lineno), "decimals = n - 1 - floor(log10 sigma) (found %s)" % forms)
+        forms = [x.canon() for ct, x, _ in extract(f, "store", "self._sig", node=f.node)]
+        want2 = norm_spec("int(-floor(log10(around(self._sigma, int(-floor(log10(self._sigma))) + self._n_significant_digits - 1)))) + self._n_significant_digits - 1").canon()
+        R.ob("H-dec", "%s.__init__:after rounding" % SF, forms == [want2], (f.file, f.lineno), "decimals must be recomputed from sigma rounded to the first estimate (0.99 -> 1.0 shifts the decimal place); found %s" % forms)
+        f = get_func(p, SF, "__call__")
+        src = _txt(f.node)
+        # the number of significant digits handed to the %#.<digits>g template, per path (value rounds to zero / not)
+        digs = sorted(closed(f, lambda st: [k.value for c in calls_in_stmt(st, "format") for k in c.keywords if k.arg == "significance"]))
+        R_X = "abs(around(x, self._sig))"
+        exp = sorted([norm_spec("max(int(self._sig + int(floor(-1)) + 1), 0)").canon(), norm_spec("max(int(self._sig + int(floor(log10(abs(%s)))) + 1), 0)" % R_X).canon()])
+        R.ob("H-dec", "%s.__call__:value digits" % SF, digs == exp, (f.file, f.lineno),
+             "significant digits of the value = decimals + floor(log10|x|) + 1, clipped at 0, independent of the digits shown for the uncertainty (found %s)" % digs)
+        R_X = "abs(np.around(x, self._sig))"
+        ok = common.like_any(src, ["_l = -1", "if %s: _l = np.log10(np.abs(%s))" % (R_X, R_X), "return '%#.{significance}g'.format(significance=_d) % x"],
+                             ["_r = %s" % R_X, "_l = -1", "if _r: _l = np.log10(np.abs(_r))", "return '%#.{significance}g'.format(significance=_d) % x"])
+        R.ob("H-dec", "%s.__call__:magnitude" % SF, ok, (f.file, f.lineno), "the magnitude must be taken from the value rounded to the decimals (9.996 -> 10.0), with a fallback for zero, and the value printed with %#.<digits>g")
+        f = get_func(p, "ParameterFormatter", "get_formatted")
+        src = _txt(f.node)
+        ok = src.all_like("_vf = ScalarFormatter(_me, n_significant_digits)", "_v = _vf(value)", "_e = '%#.{n}g'.format(n=n_significant_digits) % self.error") \
+            and common.like_any(src, "_me = min(abs(self.error_up), abs(self.error_down)) if asymmetric_error else self.error", ["_me = min(abs(self.error_up), abs(self.error_down))", "_me = self.error"])
+        R.ob("H-dec", "ParameterFormatter.get_formatted:rounding", ok, (f.file, f.lineno),
+             "the value must be rounded by a ScalarFormatter built from the (smaller) uncertainty and n; the uncertainty printed with exactly n significant digits")
+        ok = "_err_u = val_formatter(abs(self.error_up)) _err_d = '%#.{n}g'.format(n=n_significant_digits) % abs(self.error_down)" in src \
+            and "_err_d = val_formatter(abs(self.error_down)) _err_u = '%#.{n}g'.format(n=n_significant_digits) % abs(self.error_up)" in src and "if abs(self.error_down) <= abs(self.error_up):" in src
+        R.ob("H-dec", "ParameterFormatter.get_formatted:asymmetric", ok, (f.file, f.lineno), "the smaller asymmetric uncertainty gets n significant digits, the larger one the same decimals")
+        f = get_func(p, "CostFunctionFormatter", "get_formatted")
+        src = _txt(f.node)
+        ok = "_value_string = '%.4g' % value" in src and "_value_string = '%s / %d' % (_value_string, n_degrees_of_freedom)" in src \
+            and "_value_string = '%s = %.4g' % (_value_string, float(value) / n_degrees_of_freedom)" in src
+        R.ob("H-dec", "CostFunctionFormatter.get_formatted", ok, (f.file, f.lineno), "the cost is printed with 4 significant digits, the ndf as integer, the quotient as value / ndf")
 
     # ------------------------------------------------------------------ H-exp
-    fm = p.module("kafe2.fit._base.format")
-    n_rx = 0
-    domain = ["+%02d" % k for k in range(0, 309)] + ["-%02d" % k for k in range(1, 325)]
-    consts = {}
-    for n in ast.walk(fm.tree if hasattr(fm, "tree") else fm.node):
-        if isinstance(n, ast.Assign) and isinstance(n.targets[0], ast.Name) and isinstance(n.value, ast.Call) and _txt(n.value.func) == "re.compile" and n.value.args and common.const_str(n.value.args[0]):
-            consts[n.targets[0].id] = (common.const_str(n.value.args[0]), n.lineno)
-    for n in ast.walk(fm.tree if hasattr(fm, "tree") else fm.node):
-        if not isinstance(n, ast.Call) or not isinstance(n.func, ast.Attribute) or n.func.attr != "sub":
-            continue
-        pat, repl = None, None
-        if _txt(n.func.value) == "re" and len(n.args) >= 2:
-            pat, repl = common.const_str(n.args[0]), common.const_str(n.args[1])
-        elif isinstance(n.func.value, ast.Name) and n.func.value.id in consts and n.args:
-            pat, repl = consts[n.func.value.id][0], common.const_str(n.args[0])
-        if pat is None or repl is None or "10^{" not in repl:
-            continue
-        n_rx += 1
-        items = rxlang.parse(pat)
-        before, after = rxlang.split_at_literal(items, "e")
-        bad = []
-        for e in domain:
-            if len(e) not in rxlang.ends(after, e, {0}):
-                bad.append(e)
-        R.ob("H-exp", "format.py:exponent rewrite@%d" % n_rx, not bad, (fm.relpath, n.lineno),
-             "the pattern %r cannot consume the exponent of e.g. %s: digits are left behind the closing brace and the displayed power of ten is wrong" % (pat, ["1e" + b for b in bad[:4]]))
-        # mantissa: every %g mantissa with trailing zeros is consumed up to the 'e'
-        mant = ["1", "1.5", "1.50", "2.00000", "-1.05", "-9.99999", "0.5", "1.0"]
-        badm = [m for m in mant if len(m) not in rxlang.ends(before, m, {0, 1} if m.startswith("-") else {0})]
-        R.ob("H-exp", "format.py:mantissa@%d" % n_rx, not badm, (fm.relpath, n.lineno), "the pattern %r cannot consume the mantissa %s in front of the exponent" % (pat, badm))
-    if n_rx < 1:
-        raise AnalysisError("LaTeX exponent rewrites not found in format.py")
-    # both number-printing formatters apply a rewrite (directly or through a module-level helper) when LaTeX output is requested
-    def has_rewrite(node):
-        for c in ast.walk(node):
-            if isinstance(c, ast.Call) and isinstance(c.func, ast.Attribute) and c.func.attr == "sub":
-                a = [common.const_str(x) for x in c.args[:2]]
-                if any(x and "10^{" in x for x in a):
-                    return True
-        return False
+    with R.guard("Hexp"):
+        fm = p.module("kafe2.fit._base.format")
+        n_rx = 0
+        domain = ["+%02d" % k for k in range(0, 309)] + ["-%02d" % k for k in range(1, 325)]
+        consts = {}
+        for n in ast.walk(fm.tree if hasattr(fm, "tree") else fm.node):
+            if isinstance(n, ast.Assign) and isinstance(n.targets[0], ast.Name) and isinstance(n.value, ast.Call) and _txt(n.value.func) == "re.compile" and n.value.args and common.const_str(n.value.args[0]):
+                consts[n.targets[0].id] = (common.const_str(n.value.args[0]), n.lineno)
+        for n in ast.walk(fm.tree if hasattr(fm, "tree") else fm.node):
+            if not isinstance(n, ast.Call) or not isinstance(n.func, ast.Attribute) or n.func.attr != "sub":
+                continue
+            pat, repl = None, None
+            if _txt(n.func.value) == "re" and len(n.args) >= 2:
+                pat, repl = common.const_str(n.args[0]), common.const_str(n.args[1])
+            elif isinstance(n.func.value, ast.Name) and n.func.value.id in consts and n.args:
+                pat, repl = consts[n.func.value.id][0], common.const_str(n.args[0])
+            if pat is None or repl is None or "10^{" not in repl:
+                continue
+            n_rx += 1
+            items = rxlang.parse(pat)
+            before, after = rxlang.split_at_literal(items, "e")
+            bad = []
+            for e in domain:
+                if len(e) not in rxlang.ends(after, e, {0}):
+                    bad.append(e)
+            R.ob("H-exp", "format.py:exponent rewrite@%d" % n_rx, not bad, (fm.relpath, n.lineno),
+                 "the pattern %r cannot consume the exponent of e.g. %s: digits are left behind the closing brace and the displayed power of ten is wrong" % (pat, ["1e" + b for b in bad[:4]]))
+            # mantissa: every %g mantissa with trailing zeros is consumed up to the 'e'
+            mant = ["1", "1.5", "1.50", "2.00000", "-1.05", "-9.99999", "0.5", "1.0"]
+            badm = [m for m in mant if len(m) not in rxlang.ends(before, m, {0, 1} if m.startswith("-") else {0})]
+            R.ob("H-exp", "format.py:mantissa@%d" % n_rx, not badm, (fm.relpath, n.lineno), "the pattern %r cannot consume the mantissa %s in front of the exponent" % (pat, badm))
+        if n_rx < 1:
+            raise AnalysisError("LaTeX exponent rewrites not found in format.py")
+        # both number-printing formatters apply a rewrite (directly or through a module-level helper) when LaTeX output is requested
+        def has_rewrite(node):
+            for c in ast.walk(node):
+                if isinstance(c, ast.Call) and isinstance(c.func, ast.Attribute) and c.func.attr == "sub":
+                    a = [common.const_str(x) for x in c.args[:2]]
+                    if any(x and "10^{" in x for x in a):
+                        return True
+            return False
 
-    helpers = {name for name, fn in fm.functions.items() if has_rewrite(fn.node)}
-    for cname in ("ParameterFormatter", "CostFunctionFormatter"):
-        f = get_func(p, cname, "get_formatted")
-        ok = False
-        for i in ast.walk(f.node):
-            if isinstance(i, ast.If) and _txt(i.test) == "format_as_latex":
-                body = ast.Module(body=i.body, type_ignores=[])
-                if has_rewrite(body) or any(isinstance(c, ast.Call) and isinstance(c.func, ast.Name) and c.func.id in helpers for c in ast.walk(body)):
-                    ok = True
-        R.ob("H-exp", "%s.get_formatted:rewrite applied" % cname, ok, (f.file, f.lineno), "%s.get_formatted must rewrite scientific notation as a power of ten for LaTeX output" % cname)
+        helpers = {name for name, fn in fm.functions.items() if has_rewrite(fn.node)}
+        for cname in ("ParameterFormatter", "CostFunctionFormatter"):
+            f = get_func(p, cname, "get_formatted")
+            ok = False
+            for i in ast.walk(f.node):
+                if isinstance(i, ast.If) and _txt(i.test) == "format_as_latex":
+                    body = ast.Module(body=i.body, type_ignores=[])
+                    if has_rewrite(body) or any(isinstance(c, ast.Call) and isinstance(c.func, ast.Name) and c.func.id in helpers for c in ast.walk(body)):
+                        ok = True
+            R.ob("H-exp", "%s.get_formatted:rewrite applied" % cname, ok, (f.file, f.lineno), "%s.get_formatted must rewrite scientific notation as a power of ten for LaTeX output" % cname)
